@@ -10,7 +10,7 @@ import numpy
 from .common import check
 from .gen import rand_poly, nested, count
 from .model import operand, operand_model, from_ndpoly, MPoly
-from .wf import wf, denotes, snapshot, unchanged, install_poison
+from .wf import wf, denotes, snapshot, unchanged, install_poison, double_through_a_view
 
 SHAPES = [s for d in range(4) for s in itertools.product((1, 2, 3), repeat=d)]
 LAYOUTS = ("C", "T", "F")
@@ -177,7 +177,25 @@ def folded(inp):
     else:
         want = fold(m, axis, kw.get("keepdims", False), msum if fn == "sum" else mprod)
     r = attempt(call, via, fn, x, kw)
-    return agree(r, want, f"{fn} spelled {via} with {inp['kw']}", exact=fn != "mean") or unchanged(before, x)
+    msg = agree(r, want, f"{fn} spelled {via} with {inp['kw']}", exact=fn != "mean") or unchanged(before, x)
+    if msg or not x.size or inp["layout"] == "F":
+        return msg
+    # the same call once more after every coefficient was doubled in place through a view of the same memory: the result
+    # is the sum / product of the elements the array holds NOW (a value remembered from the first call would be stale)
+    double_through_a_view(x)
+    m2 = numpy.empty(m.size, dtype=object)
+    for k, cell in enumerate(m.reshape(-1)):
+        m2[k] = cell + cell
+    m2 = m2.reshape(m.shape)
+    if fn == "cumsum":
+        want2 = cumulate(m2, axis)
+    elif fn == "mean":
+        want2 = fold(m2, axis, kw.get("keepdims", False), lambda cells: msum(cells).scale(Fraction(1, len(cells))))
+    else:
+        want2 = fold(m2, axis, kw.get("keepdims", False), msum if fn == "sum" else mprod)
+    r2 = attempt(call, via, fn, x, kw)
+    return agree(r2, want2, f"{fn} spelled {via} with {inp['kw']}, called again after the array was doubled in place through the view x.T",
+                 exact=fn != "mean")
 
 
 for _fn in VIAS:
@@ -185,7 +203,8 @@ for _fn in VIAS:
           note=BOUNDS + f"every axis argument numpy accepts (omitted, None, each int -ndim..ndim-1" + ("" if _fn == "cumsum" else ", every tuple of axes incl. ()")
           + ")" + ("" if _fn == "cumsum" else " x keepdims omitted/True/False") + f"; spellings {'/'.join(VIAS[_fn])} (omitted axis means 0 for the "
           f"numpy.add.* spellings)" + ("; <=2 terms, exponents <=2, <=9 factors per product" if _fn == "prod" else "")
-          + ("; compared up to float64 rounding of the division" if _fn == "mean" else "") + "; thorough tier exhaustive over shape x arguments x spelling")(folded)
+          + ("; compared up to float64 rounding of the division" if _fn == "mean" else "") + "; each call is repeated after every coefficient was doubled in place through a view (result follows the current elements)"
+          + "; thorough tier exhaustive over shape x arguments x spelling")(folded)
 
 
 # ------------------------------------------------------------------ diff / ediff1d
